@@ -1,5 +1,6 @@
 //! Runtime-monitoring harness for bytebeamio/rumqtt (see /verif/DESIGN.md)
 pub mod common;
+pub mod watch;
 pub mod gen;
 pub mod model;
 pub mod props;
